@@ -141,13 +141,20 @@ Proof.
     reflexivity.
 Qed.
 
-Lemma render_csv_ok n v : 0 <= n -> value_ok v = true -> ctext_ok (render n v) = true.
+Lemma char_csv_cell c : char_csv_ok c = true -> char_cell_ok c = true.
+Proof. unfold char_csv_ok, char_cell_ok. destruct (code c =? 0); cbn; intros H; [discriminate H|reflexivity]. Qed.
+Lemma str_csv_cell s : str_csv_ok s = true -> str_cell_ok s = true.
+Proof. unfold str_csv_ok, str_cell_ok. rewrite !forallb_forall. intros H c Hc. apply char_csv_cell, H, Hc. Qed.
+Lemma ctext_csv_cell t : ctext_ok t = true -> ctext_cell_ok t = true.
+Proof. destruct t as [s]. apply str_csv_cell. Qed.
+
+Lemma render_csv_ok n v : 0 <= n -> value_ok v = true -> ctext_cell_ok (render n v) = true.
 Proof.
-  intros Hn Hv. destruct v as [|z|f|s]; cbn [render ctext_ok].
+  intros Hn Hv. destruct v as [|z|f|s].
   - reflexivity.
-  - apply show_int_csv_ok.
-  - apply fmt_csv_ok; [exact Hn|]. destruct f; cbn [value_ok] in Hv; [lia|exact I|exact I].
-  - cbn [value_ok] in Hv. apply andb_true_iff in Hv. apply Hv.
+  - apply ctext_csv_cell. cbn [render ctext_ok]. apply show_int_csv_ok.
+  - apply ctext_csv_cell. cbn [render ctext_ok]. apply fmt_csv_ok; [exact Hn|]. destruct f; cbn [value_ok] in Hv; [lia|exact I|exact I].
+  - cbn [render ctext_cell_ok]. cbn [value_ok] in Hv. apply andb_true_iff in Hv. apply Hv.
 Qed.
 
 Lemma row_ok_parts r : row_ok r = true ->
@@ -245,7 +252,7 @@ Proof.
       unfold Rows_Spec. rewrite map_map. apply Forall2_map_r. intros r Hr. apply (row_roundtrip first excl n rows r); auto.
     + cbn [forallb]. apply andb_true_iff. split.
       * rewrite forallb_forall. intros c Hc. apply in_map_iff in Hc. destruct Hc as (k & <- & Hk).
-        cbn [ctext_ok]. apply (Hfs k Hk).
+        apply ctext_csv_cell. cbn [ctext_ok]. apply (Hfs k Hk).
       * rewrite forallb_forall. intros line Hl. apply in_map_iff in Hl. destruct Hl as (r & <- & Hr).
         rewrite forallb_forall. intros c Hc. apply in_map_iff in Hc. destruct Hc as (f & <- & Hf).
         apply render_csv_ok; [lia|]. apply get_cell_ok. rewrite forallb_forall in Hrows. auto.
@@ -296,13 +303,14 @@ Proof.
     reflexivity.
 Qed.
 
-Lemma raw_csv_ok v : simple_value_ok v = true -> ctext_ok (render_raw F v) = true.
+Lemma raw_csv_ok v : simple_value_ok v = true -> ctext_cell_ok (render_raw F v) = true.
 Proof.
-  destruct v as [|z|f|s]; cbn [simple_value_ok render_raw ctext_ok]; intros Hv; try reflexivity.
-  - apply show_int_csv_ok.
-  - rewrite s2l_l2s. pose proof (fl_chars F HF f Hv) as Hc. rewrite forallb_forall in Hc |- *.
+  destruct v as [|z|f|s]; cbn [simple_value_ok render_raw]; intros Hv.
+  - reflexivity.
+  - apply ctext_csv_cell. cbn [ctext_ok]. apply show_int_csv_ok.
+  - apply ctext_csv_cell. cbn [ctext_ok]. rewrite s2l_l2s. pose proof (fl_chars F HF f Hv) as Hc. rewrite forallb_forall in Hc |- *.
     intros c Hin. apply float_char_csv_ok, Hc, Hin.
-  - cbn [value_ok] in Hv. apply andb_true_iff in Hv. apply Hv.
+  - cbn [ctext_cell_ok]. cbn [value_ok] in Hv. apply andb_true_iff in Hv. apply Hv.
 Qed.
 
 Lemma lookup_map_val {A B} (g : A -> B) k (l : list (Z * A)) :
@@ -351,10 +359,12 @@ Proof.
         apply (lookup_some_in Z.eqb zeqb_sound) in El. rewrite forallb_forall in Hv. apply (Hv _ El).
       * apply Forall_forall. intros kv Hin. cbn [fst snd]. rewrite s2l_l2s, py_int_show_int. reflexivity.
     + cbn [forallb]. apply andb_true_iff. split.
-      * change (ctext_ok (CT "cluster_id")) with true. cbn [ctext_ok andb]. rewrite andb_true_r. exact Hc.
+      * change (ctext_cell_ok (CT "cluster_id")) with true. cbn [andb]. rewrite andb_true_r.
+        apply ctext_csv_cell. cbn [ctext_ok]. exact Hc.
       * rewrite forallb_forall. intros line Hl. apply in_map_iff in Hl. destruct Hl as (kv & <- & Hin).
-        cbn [forallb]. change (ctext_ok (CT (l2s (show_int (fst kv))))) with (str_csv_ok (l2s (show_int (fst kv)))).
-        rewrite show_int_csv_ok, raw_csv_ok by (apply Hv', Hin). reflexivity.
+        cbn [forallb].
+        rewrite (ctext_csv_cell (CT (l2s (show_int (fst kv)))) (show_int_csv_ok (fst kv))), raw_csv_ok by (apply Hv', Hin).
+        reflexivity.
   - change (ctext_ok (CT "cluster_id")) with true. cbn [forallb ctext_ok andb]. rewrite andb_true_r. exact Hc.
   - cbn [existsb has_tab]. change (existsb (Ascii.eqb ch_tab) (s2l "cluster_id")) with false.
     unfold no_tab in Ht. apply negb_true_iff in Ht. rewrite Ht. reflexivity.
